@@ -1,6 +1,7 @@
 package smoke
 
 import (
+	"context"
 	"encoding/binary"
 	"errors"
 	"fmt"
@@ -137,6 +138,10 @@ type myError struct{ code int }
 
 func (e *myError) Error() string { return fmt.Sprintf("code %d", e.code) }
 
+var errSeven = errors.New("seven")
+
+func (e *myError) Is(target error) bool { return target == errSeven && e.code == 7 }
+
 func typedNil() error {
 	var e *myError
 	return e // non-nil interface holding a nil pointer
@@ -184,6 +189,26 @@ func Dynamic() {
 	vx.Assert("sem.errors_as_typed_nil", errors.As(e, &me) && me == nil)
 	wrapped := fmt.Errorf("ctx: %w", &myError{4})
 	vx.Assert("sem.errors_as_unwraps", errors.As(wrapped, &me) && me.code == 4 && wrapped.Error() == "ctx: code 4")
+	// errors.Is: nil target, sentinel values of un-run package initialisers, wrapping, Is methods
+	plain := errors.New("plain")
+	vx.Assert("sem.errors_is_nil_target", !errors.Is(plain, nil) && errors.Is(nil, nil) && !errors.Is(nil, plain))
+	vx.Assert("sem.errors_is_sentinels", !errors.Is(plain, context.DeadlineExceeded) && !errors.Is(plain, context.Canceled) &&
+		errors.Is(context.DeadlineExceeded, context.DeadlineExceeded) && !errors.Is(context.Canceled, context.DeadlineExceeded))
+	timeout := fmt.Errorf("region x: %w", context.DeadlineExceeded)
+	vx.Assert("sem.errors_is_unwraps", errors.Is(timeout, context.DeadlineExceeded) && !errors.Is(timeout, context.Canceled) && errors.Is(timeout, timeout))
+	vx.Assert("sem.errors_is_method", errors.Is(&myError{7}, errSeven) && !errors.Is(&myError{8}, errSeven))
+	// fmt with flags, widths and bad verbs on concrete operands (decided by the host's fmt in the executor)
+	vx.Assert("sem.sprintf_flags", fmt.Sprintf("%05d|%-4s|%x|%q", 42, "ab", 255, "z") == `00042|ab  |ff|"z"`)
+	vx.Assert("sem.sprintf_bad_verb", fmt.Sprintf("a%2Fb_%s", "us-west-2") == fmt.Sprintf("a%3Fb_%s", "us-west-2") &&
+		fmt.Sprintf("a%2Fb_%s", "us-west-2") == "a%!F(string=us-west-2)b_%!s(MISSING)")
+	// sync.Pool: Get returns a pooled object or a new one, never anything else
+	pool := sync.Pool{New: func() any { return &inner{a: -1} }}
+	first := pool.Get().(*inner)
+	vx.Assert("sem.pool_new", first.a == -1)
+	first.a = 5
+	pool.Put(first)
+	second := pool.Get().(*inner)
+	vx.Assert("sem.pool_get", (second == first && second.a == 5) || (second != first && second.a == -1))
 	d := derived{name: "n"}
 	d.setID(5) // promoted pointer method on addressable value
 	vx.Assert("sem.promoted_methods", d.getID() == 5 && d.base.id == 5)
